@@ -96,8 +96,32 @@ Definition nolock (f : proto -> proto) : Prop :=
   forall p, p_outlock (f p) = p_outlock p /\ p_sendlock (f p) = p_sendlock p.
 
 (* ------------------------------------------------------------------ basic transitions *)
+(* protocol updates that leave the scaled-screen selection of the client alone *)
+Definition noscale (f : proto -> proto) : Prop :=
+  forall p, p_scaled (f p) = p_scaled p /\ p_sw (f p) = p_sw p /\ p_sh (f p) = p_sh p.
+
+(* rfbScalingSetup either leaves the state alone or is: one reference-count move + the client's selection *)
+Lemma scaling_setup_form : forall k sw sh s,
+  scaling_setup k sw sh s = s \/
+  exists b w h v r, scaling_setup k sw sh s = updp k (pset_scale b w h) (set_scaled v (set_ref r s)).
+Proof.
+  intros. unfold scaling_setup. destruct (live s k) as [c|]; auto.
+  destruct ((sw =? g_w (s_cfg s)) && (sh =? g_h (s_cfg s)))%Z.
+  - right. unfold adj_ref. destruct (p_scaled (c_proto c)).
+    + exists false, 0%Z, 0%Z, (adj_scaled (p_sw (c_proto c)) (p_sh (c_proto c)) (-1) (s_scaled s)), (s_ref s + 1)%Z. reflexivity.
+    + exists false, 0%Z, 0%Z, (s_scaled s), (s_ref s + -1 + 1)%Z. reflexivity.
+  - destruct (negb (has_scaled sw sh (s_scaled s)) && ((sw =? 0) || (sh =? 0)))%Z; auto.
+    right. unfold adj_ref.
+    set (ch0 := if has_scaled sw sh (s_scaled s) then s_scaled s else (sw, sh, 0%Z) :: s_scaled s).
+    destruct (p_scaled (c_proto c)).
+    + exists true, sw, sh, (adj_scaled sw sh 1 (adj_scaled (p_sw (c_proto c)) (p_sh (c_proto c)) (-1) ch0)), (s_ref s).
+      unfold ch0. destruct (has_scaled sw sh (s_scaled s)); reflexivity.
+    + exists true, sw, sh, (adj_scaled sw sh 1 ch0), (s_ref s + -1)%Z.
+      unfold ch0. destruct (has_scaled sw sh (s_scaled s)); reflexivity.
+Qed.
+
 Inductive bstep (k : nat) : screen -> screen -> Prop :=
-  | b_updp : forall f s, nolock f -> bstep k s (updp k f s)
+  | b_updp : forall f s, nolock f -> noscale f -> bstep k s (updp k f s)
   | b_close : forall s, bstep k s (close_client k s)
   | b_gone : forall s, bstep k s (connection_gone k s)
   | b_ioc : forall n s, bstep k s (set_ioc n s)
@@ -106,8 +130,7 @@ Inductive bstep (k : nat) : screen -> screen -> Prop :=
   | b_hung : forall s c, live s k = Some c -> p_outlock (c_proto c) || p_sendlock (c_proto c) = true ->
              bstep k s (set_hung true s)
   | b_ptr : forall v s, bstep k s (set_ptr v s)
-  | b_ref : forall v s, bstep k s (set_ref v s)
-  | b_scaled : forall v s, bstep k s (set_scaled v s).
+  | b_rescale : forall sw sh s, bstep k s (scaling_setup k sw sh s).
 
 Inductive reachk (k : nat) : screen -> screen -> Prop :=
   | rk_refl : forall s, reachk k s s
@@ -144,6 +167,8 @@ Proof.
     { unfold get. simpl. apply nth_upd_other; auto. }
     unfold get, adj_ref. destruct (p_scaled (c_proto c)); simpl.
     all: destruct (s_ptr s) as [j0|]; simpl; try destruct (Nat.eqb j0 k); simpl; apply nth_upd_other; auto.
+  - (* rescale *) destruct (scaling_setup_form k sw sh s) as [->|(b&w&h&v&r&->)]; auto.
+    rewrite get_updp_other; auto.
 Qed.
 
 Lemma reachk_frame : forall k s s', reachk k s s' -> forall j, j <> k -> get s' j = get s j.
@@ -156,7 +181,13 @@ Qed.
 Lemma bstep_cfg : forall k s s', bstep k s s' -> s_cfg s' = s_cfg s /\ s_cleaned s' = s_cleaned s
   /\ length (s_conns s') = length (s_conns s) /\ (s_hung s = true -> s_hung s' = true) /\ s_faults s' = s_faults s.
 Proof.
-  intros k s s' H. destruct H; simpl; repeat split; auto; try (apply upd_length).
+  intros k s s' H.
+  assert (RS : forall sw sh, s_cfg (scaling_setup k sw sh s) = s_cfg s /\ s_cleaned (scaling_setup k sw sh s) = s_cleaned s
+     /\ length (s_conns (scaling_setup k sw sh s)) = length (s_conns s)
+     /\ (s_hung s = true -> s_hung (scaling_setup k sw sh s) = true) /\ s_faults (scaling_setup k sw sh s) = s_faults s).
+  { intros sw sh. destruct (scaling_setup_form k sw sh s) as [->|(b&w&h&v&r&->)]; [repeat split; auto|].
+    simpl. repeat split; auto. apply upd_length. }
+  destruct H; try (apply RS; fail); simpl; repeat split; auto; try (apply upd_length).
   - unfold close_client. destruct (s_hung s); auto. destruct (live s k); auto. destruct (l_open (c_life c)); auto.
   - unfold close_client. destruct (s_hung s); auto. destruct (live s k); auto. destruct (l_open (c_life c)); auto.
   - unfold close_client. destruct (s_hung s); auto. destruct (live s k); auto. destruct (l_open (c_life c)); auto.
@@ -282,6 +313,8 @@ Proof.
       destruct (s_ptr s) as [j0|] eqn:Ep; simpl; rewrite ?Ep; simpl;
         try destruct (Nat.eqb j0 k); simpl; split;
         try (exact Hconns); try (apply Hord; simpl; auto).
+  - (* rescale *) destruct (scaling_setup_form k sw sh s) as [->|(b&w&h&v&r&->)]; auto.
+    apply inv_updp. eapply inv_screen_only; [exact I|reflexivity|reflexivity|reflexivity].
 Qed.
 
 Lemma reachk_inv : forall k s s', reachk k s s' -> inv s -> inv s'.
@@ -291,14 +324,8 @@ Proof. intros k s s' H. induction H; auto. intros I. eapply bstep_inv; eauto. Qe
 Create HintDb rk.
 
 Lemma R_refl : forall k s, reachk k s s. Proof. apply rk_refl. Qed.
-Lemma R_updp : forall k f s0 x, nolock f -> reachk k s0 x -> reachk k s0 (updp k f x).
+Lemma R_updp : forall k f s0 x, nolock f -> noscale f -> reachk k s0 x -> reachk k s0 (updp k f x).
 Proof. intros. eapply rk_step; eauto. apply b_updp; auto. Qed.
-Lemma R_ref : forall k v s0 x, reachk k s0 x -> reachk k s0 (set_ref v x).
-Proof. intros. eapply rk_step; eauto. apply b_ref. Qed.
-Lemma R_scaled : forall k v s0 x, reachk k s0 x -> reachk k s0 (set_scaled v x).
-Proof. intros. eapply rk_step; eauto. apply b_scaled. Qed.
-Lemma R_adj_ref : forall k p d s0 x, reachk k s0 x -> reachk k s0 (adj_ref p d x).
-Proof. intros. unfold adj_ref. destruct (p_scaled p); [apply R_scaled | apply R_ref]; auto. Qed.
 Lemma orb_l : forall a b, a = true -> a || b = true. Proof. intros; subst; reflexivity. Qed.
 Lemma orb_r : forall a b, b = true -> a || b = true. Proof. intros; subst; apply orb_true_r. Qed.
 Lemma R_close : forall k s0 x, reachk k s0 x -> reachk k s0 (close_client k x).
@@ -316,13 +343,18 @@ Lemma R_hung : forall k s0 x c, live x k = Some c -> p_outlock (c_proto c) || p_
 Proof. intros. eapply rk_step; eauto. eapply b_hung; eauto. Qed.
 Lemma R_ptr : forall k v s0 x, reachk k s0 x -> reachk k s0 (set_ptr v x).
 Proof. intros. eapply rk_step; eauto. apply b_ptr. Qed.
-#[export] Hint Resolve R_refl R_updp R_ref R_scaled R_adj_ref R_close R_gone R_ioc R_bad R_unmod R_ptr : rk.
+#[export] Hint Resolve R_refl R_updp R_close R_gone R_ioc R_bad R_unmod R_ptr : rk.
 
 Ltac solve_nolock :=
   unfold nolock; intros ?p; simpl;
   repeat match goal with |- context [if ?b then _ else _] => destruct b; simpl end;
   split; reflexivity.
 #[export] Hint Extern 1 (nolock _) => solve_nolock : rk.
+Ltac solve_noscale :=
+  unfold noscale; intros ?p; simpl;
+  repeat match goal with |- context [if ?b then _ else _] => destruct b; simpl end;
+  repeat split; reflexivity.
+#[export] Hint Extern 1 (noscale _) => solve_noscale : rk.
 
 Ltac dm := match goal with |- context [match ?x with _ => _ end] => destruct x eqn:? end.
 Ltac dmh H := match type of H with context [match ?x with _ => _ end] => destruct x eqn:? end.
@@ -412,7 +444,7 @@ Proof. intros. unfold process_ft. go. Qed.
 #[export] Hint Resolve R_ft : rk.
 
 Lemma R_scaling_setup : forall k a b s0 x, reachk k s0 x -> reachk k s0 (scaling_setup k a b x).
-Proof. intros. unfold scaling_setup. go. Qed.
+Proof. intros. eapply rk_step; eauto. apply b_rescale. Qed.
 #[export] Hint Resolve R_scaling_setup : rk.
 Lemma R_setscale : forall k s0 x, reachk k s0 x -> reachk k s0 (process_setscale k x).
 Proof. intros. unfold process_setscale. go. Qed.
@@ -482,6 +514,9 @@ Proof.
     unfold get, adj_ref in *. destruct (p_scaled (c_proto c)); simpl;
     destruct (s_ptr s) as [j0|]; simpl; try destruct (Nat.eqb j0 k); simpl;
       rewrite nth_upd_same, Hg; simpl; eexists; split; eauto.
+  - (* rescale *) destruct (scaling_setup_form k sw sh s) as [->|(b&w&h&v&r&->)]; [exists c; split; auto|].
+    rewrite get_updp_same. change (get (set_scaled v (set_ref r s)) k) with (get s k). rewrite Hc. simpl.
+    eexists; split; eauto. rewrite on_proto_life. auto.
 Qed.
 
 Lemma reachk_new : forall k s s', reachk k s s' -> forall j c, get s j = Some c ->
@@ -914,6 +949,8 @@ Proof.
     destruct (s_ptr s) as [j0|] eqn:Ep; simpl; rewrite ?Ep; simpl; try destruct (Nat.eqb j0 k); simpl;
       split; auto; unfold locks_clear; simpl; apply Forall_upd; auto; intros x _ _; simpl; auto.
   - rewrite (live_locks _ _ _ HL H) in H0. discriminate.
+  - (* rescale *) destruct (scaling_setup_form k sw sh s) as [->|(b&w&h&v&r&->)]; [split; auto|].
+    split; auto. apply locks_updp; [solve_nolock|]. exact HL.
 Qed.
 
 Lemma gstep_nh : forall s s', gstep s s' -> NH s -> NH s'.
@@ -1063,6 +1100,9 @@ Proof.
   - rewrite get_updp_same, Hc. simpl. unfold on_proto. rewrite Hf. reflexivity.
   - unfold close_client. destruct (s_hung s); auto. rewrite Hl. auto.
   - unfold connection_gone. destruct (s_hung s); auto. rewrite Hl. auto.
+  - destruct (scaling_setup_form k sw sh s) as [->|(b&w&h&v&r&->)]; auto.
+    rewrite get_updp_same. change (get (set_scaled v (set_ref r s)) k) with (get s k). rewrite Hc. simpl.
+    unfold on_proto. rewrite Hf. reflexivity.
 Qed.
 
 Lemma gstep_freed_stays : forall s s', gstep s s' -> forall j c, get s j = Some c ->
@@ -1144,9 +1184,20 @@ Proof.
     try destruct (Nat.eqb j0 k); simpl; auto.
 Qed.
 
+Lemma fd_inv_updp : forall k f s, fd_inv s -> fd_inv (updp k f s).
+Proof.
+  intros k f s I. intros j c Hc. destruct (Nat.eq_dec j k) as [->|Hn].
+  + rewrite get_updp_same in Hc. destruct (get s k) as [c0|] eqn:E; simpl in Hc; inversion Hc; subst c.
+    destruct (I k c0 E) as [F1 F2]. unfold on_proto. destruct (l_freed (c_life c0)) eqn:Ef; simpl.
+    * split; auto. intros; congruence.
+    * split; auto.
+  + rewrite get_updp_other in Hc by auto. apply I; auto.
+Qed.
+
 Lemma bstep_fd : forall k s s', bstep k s s' -> fd_inv s -> fd_inv s'.
 Proof.
-  intros k s s' H I. destruct H; try exact I.
+  intros k s s' H I. destruct H; try exact I;
+    try (destruct (scaling_setup_form k sw sh s) as [->|(b&w&h&v&r&->)]; [exact I | apply fd_inv_updp; exact I]).
   - (* updp *) intros j c Hc. destruct (Nat.eq_dec j k) as [->|Hn].
     + rewrite get_updp_same in Hc. destruct (get s k) as [c0|] eqn:E; simpl in Hc; inversion Hc; subst c.
       destruct (I k c0 E) as [F1 F2]. unfold on_proto. destruct (l_freed (c_life c0)) eqn:Ef; simpl.
@@ -1217,6 +1268,436 @@ Proof.
     - unfold run. apply reach_run_from. apply r_refl.
     - intros j c0 Hc. unfold get, init in Hc. simpl in Hc. destruct j; discriminate. }
   destruct (I k c Hg) as [F1 F2]. rewrite F1. apply F2; auto.
+Qed.
+
+(* ---- step-level frame: an operation directed at connection k, and every handshake / message function
+   of k that is a composition of basic transitions of k, leaves the full record of every other
+   connection unchanged and keeps every other open client in the descriptor set *)
+Definition directed (o : op) : option nat :=
+  match o with
+  | OIn k _ | OPeerClose k | OAppClose k | OStart k | ORefuse k | OAppXvp k => Some k
+  | _ => None
+  end.
+
+Lemma step_directed_reachk : forall o k s, directed o = Some k -> reachk k s (step s o).
+Proof.
+  intros o k s H. unfold step. destruct (s_hung s || s_cleaned s); [apply rk_refl|].
+  destruct o; simpl in H; inversion H; subst; try (fin; fail).
+  destruct (live s k); fin.
+Qed.
+
+Lemma reachk_fd_frame : forall k s s', reachk k s s' -> fd_inv s -> forall j c, j <> k ->
+  get s j = Some c -> l_freed (c_life c) = false -> l_open (c_life c) = true ->
+  get s' j = Some c /\ In (c_fd c) (s_allfds s') /\ (c_fd c <= s_maxfd s')%Z.
+Proof.
+  intros k s s' R I j c Hn Hg Hf Ho.
+  assert (Hg' : get s' j = Some c) by (rewrite (reachk_frame _ _ _ R j Hn); auto).
+  split; auto.
+  assert (I' : fd_inv s') by (eapply reach_fd; [eapply reachk_reach; eauto | auto]).
+  destruct (I' j c Hg') as [F1 F2]. rewrite F1. apply F2; auto.
+Qed.
+
+Theorem step_frame : forall o k j s, directed o = Some k -> j <> k -> get (step s o) j = get s j.
+Proof. intros. eapply reachk_frame; eauto. apply step_directed_reachk; auto. Qed.
+
+Theorem step_fd_frame : forall cfg ops o k j c, directed o = Some k -> j <> k ->
+  get (run cfg ops) j = Some c -> l_freed (c_life c) = false -> l_open (c_life c) = true ->
+  get (run cfg (ops ++ [o])) j = Some c /\
+  In (c_fd c) (s_allfds (run cfg (ops ++ [o]))) /\ (c_fd c <= s_maxfd (run cfg (ops ++ [o])))%Z.
+Proof.
+  intros cfg ops o k j c Hd Hn Hg Hf Ho. rewrite run_app. simpl.
+  eapply reachk_fd_frame; eauto.
+  - apply step_directed_reachk; auto.
+  - apply (reach_fd (init cfg)).
+    + unfold run. apply reach_run_from. apply r_refl.
+    + intros i c0 Hc. unfold get, init in Hc. simpl in Hc. destruct i; discriminate.
+Qed.
+
+Theorem handshake_frame : forall k j m s, j <> k ->
+  get (process_version k s) j = get s j /\ get (auth_new_client k m s) j = get s j /\
+  get (send_challenge k s) j = get s j /\ get (process_auth k m s) j = get s j /\
+  get (send_xvp k s) j = get s j /\ get (send_update k s) j = get s j.
+Proof.
+  intros k j m s Hn. repeat split; eapply reachk_frame; eauto; fin.
+Qed.
+
+(* ---- reference counts of the screen chain: in every reachable state the count of the unscaled screen and
+   of every scaled screen equals the number of live client records that use it; no two chain entries
+   have the same size; every live scaled client's size has an entry *)
+Definition b2z (b : bool) : Z := if b then 1%Z else 0%Z.
+Fixpoint cnt (P : conn -> bool) (l : list conn) : Z :=
+  match l with [] => 0%Z | c :: t => (b2z (P c) + cnt P t)%Z end.
+Definition islive (c : conn) : bool := negb (l_freed (c_life c)).
+Definition uses_un (c : conn) : bool := islive c && negb (p_scaled (c_proto c)).
+Definition uses_sc (w h : Z) (c : conn) : bool :=
+  islive c && p_scaled (c_proto c) && ((w =? p_sw (c_proto c)) && (h =? p_sh (c_proto c)))%Z.
+Definition keys (l : list (Z * Z * Z)) : list (Z * Z) := map fst l.
+Definition sel_ok (ch : list (Z * Z * Z)) (c : conn) : Prop :=
+  islive c = true -> p_scaled (c_proto c) = true ->
+  has_scaled (p_sw (c_proto c)) (p_sh (c_proto c)) ch = true.
+Definition rc_inv (s : screen) : Prop :=
+  s_ref s = cnt uses_un (s_conns s) /\
+  (forall w h r, In (w, h, r) (s_scaled s) -> r = cnt (uses_sc w h) (s_conns s)) /\
+  NoDup (keys (s_scaled s)) /\
+  Forall (sel_ok (s_scaled s)) (s_conns s).
+
+Lemma cnt_replace : forall P g l k c, nth_error l k = Some c ->
+  cnt P (upd_nth k g l) = (cnt P l - b2z (P c) + b2z (P (g c)))%Z.
+Proof.
+  induction l as [|x t IH]; intros [|k] c H; simpl in *; try discriminate.
+  - inversion H; subst. lia.
+  - rewrite (IH k c H). lia.
+Qed.
+Lemma cnt_upd_eq : forall P g l k, (forall c, nth_error l k = Some c -> P (g c) = P c) ->
+  cnt P (upd_nth k g l) = cnt P l.
+Proof.
+  induction l as [|x t IH]; intros [|k] H; simpl; auto.
+  - rewrite (H x); auto.
+  - rewrite IH; auto.
+Qed.
+Lemma cnt_app : forall P l c, cnt P (l ++ [c]) = (cnt P l + b2z (P c))%Z.
+Proof. induction l as [|x t IH]; simpl; intros; [lia | rewrite IH; lia]. Qed.
+Lemma cnt_zero : forall P l, (forall c, In c l -> P c = false) -> cnt P l = 0%Z.
+Proof.
+  induction l as [|x t IH]; simpl; intros H; auto.
+  rewrite (H x) by auto. rewrite IH; auto.
+Qed.
+Lemma upd_nth_ext : forall A (g : A -> A) l k c, nth_error l k = Some c ->
+  upd_nth k g l = upd_nth k (fun _ => g c) l.
+Proof.
+  induction l as [|x t IH]; intros [|k] c H; simpl in *; try discriminate; auto.
+  - inversion H; subst; auto.
+  - rewrite (IH k c H). auto.
+Qed.
+
+Lemma keys_adj : forall a b d l, keys (adj_scaled a b d l) = keys l.
+Proof.
+  unfold keys. induction l as [|[[w0 h0] r0] t IH]; simpl; auto.
+  destruct ((w0 =? a) && (h0 =? b))%Z; simpl; [auto | rewrite IH; auto].
+Qed.
+Lemma in_keys : forall w h r l, In (w, h, r) l -> In (w, h) (keys l).
+Proof. intros. unfold keys. apply (in_map fst) in H. exact H. Qed.
+Lemma in_adj : forall a b d l, NoDup (keys l) -> forall w h r', In (w, h, r') (adj_scaled a b d l) ->
+  exists r, In (w, h, r) l /\ r' = (r + (if ((w =? a) && (h =? b))%Z then d else 0))%Z.
+Proof.
+  induction l as [|[[w0 h0] r0] t IH]; simpl; intros ND w h r' H; [tauto|].
+  unfold keys in ND. simpl in ND. inversion ND as [|x xs Hnotin ND']; subst.
+  destruct ((w0 =? a) && (h0 =? b))%Z eqn:E.
+  - simpl in H. destruct H as [H|H].
+    + inversion H; subst. rewrite E. exists r0. split; auto.
+    + destruct ((w =? a) && (h =? b))%Z eqn:E2.
+      * exfalso. apply andb_true_iff in E. apply andb_true_iff in E2.
+        destruct E as [E1a E1b]. destruct E2 as [E2a E2b].
+        apply Z.eqb_eq in E1a. apply Z.eqb_eq in E1b. apply Z.eqb_eq in E2a. apply Z.eqb_eq in E2b. subst.
+        apply Hnotin. apply (in_keys _ _ _ _ H).
+      * exists r'. split; [right; auto | lia].
+  - simpl in H. destruct H as [H|H].
+    + inversion H; subst. rewrite E. exists r'. split; [left; auto | lia].
+    + destruct (IH ND' w h r' H) as [r [Hin Hr]]. exists r. split; [right; auto | auto].
+Qed.
+Lemma has_scaled_keys : forall w h l, has_scaled w h l = true <-> In (w, h) (keys l).
+Proof.
+  intros. unfold has_scaled, keys. rewrite existsb_exists. split.
+  - intros [[[w0 h0] r0] [Hin E]]. apply andb_true_iff in E. destruct E as [E1 E2].
+    apply Z.eqb_eq in E1. apply Z.eqb_eq in E2. subst. apply (in_map fst) in Hin. exact Hin.
+  - intros H. apply in_map_iff in H. destruct H as [[[w0 h0] r0] [E Hin]]. simpl in E. inversion E; subst.
+    exists (w, h, r0). split; auto. rewrite !Z.eqb_refl. reflexivity.
+Qed.
+Lemma has_scaled_adj : forall w h a b d l, has_scaled w h (adj_scaled a b d l) = has_scaled w h l.
+Proof.
+  intros. destruct (has_scaled w h l) eqn:E.
+  - apply has_scaled_keys. rewrite keys_adj. apply has_scaled_keys. auto.
+  - destruct (has_scaled w h (adj_scaled a b d l)) eqn:E2; auto.
+    apply has_scaled_keys in E2. rewrite keys_adj in E2. apply has_scaled_keys in E2. congruence.
+Qed.
+
+Lemma uses_live_un : forall c, l_freed (c_life c) = false -> p_scaled (c_proto c) = false ->
+  uses_un c = true /\ forall w h, uses_sc w h c = false.
+Proof. intros c A B. unfold uses_un, uses_sc, islive. rewrite A, B. split; auto. Qed.
+Lemma uses_live_sc : forall c, l_freed (c_life c) = false -> p_scaled (c_proto c) = true ->
+  uses_un c = false /\ forall w h, uses_sc w h c = ((w =? p_sw (c_proto c)) && (h =? p_sh (c_proto c)))%Z.
+Proof. intros c A B. unfold uses_un, uses_sc, islive. rewrite A, B. split; auto. Qed.
+Lemma uses_freed : forall c, l_freed (c_life c) = true -> uses_un c = false /\ forall w h, uses_sc w h c = false.
+Proof. intros c A. unfold uses_un, uses_sc, islive. rewrite A. split; auto. Qed.
+
+(* a record is replaced and the counts move accordingly *)
+Lemma rc_replace : forall s k c c' ch' (dun : Z) (dsc : Z -> Z -> Z) s',
+  rc_inv s -> get s k = Some c ->
+  (b2z (uses_un c') - b2z (uses_un c) = dun)%Z ->
+  (forall w h, b2z (uses_sc w h c') - b2z (uses_sc w h c) = dsc w h)%Z ->
+  NoDup (keys ch') ->
+  (forall w h r', In (w, h, r') ch' -> exists r, In (w, h, r) (s_scaled s) /\ r' = (r + dsc w h)%Z) ->
+  (forall w h, has_scaled w h (s_scaled s) = true -> has_scaled w h ch' = true) ->
+  sel_ok ch' c' ->
+  s_ref s' = (s_ref s + dun)%Z -> s_scaled s' = ch' -> s_conns s' = upd_nth k (fun _ => c') (s_conns s) ->
+  rc_inv s'.
+Proof.
+  intros s k c c' ch' dun dsc s' (R1 & R2 & R3 & R4) Hg Hun Hsc ND Hin Hmono Hsel E1 E2 E3.
+  unfold get in Hg. unfold rc_inv. rewrite E1, E2, E3. repeat split; auto.
+  - rewrite (cnt_replace _ _ _ _ _ Hg). lia.
+  - intros w h r' H. destruct (Hin w h r' H) as [r [Hr ->]]. rewrite (cnt_replace _ _ _ _ _ Hg).
+    rewrite (R2 w h r Hr). specialize (Hsc w h). lia.
+  - apply Forall_upd.
+    + eapply Forall_impl; [|exact R4]. intros x Hx A B. apply Hmono. apply Hx; auto.
+    + intros x _ _. exact Hsel.
+Qed.
+
+(* a record is updated without touching what the counts depend on *)
+Lemma rc_same : forall s k g s',
+  rc_inv s -> s_ref s' = s_ref s -> s_scaled s' = s_scaled s -> s_conns s' = upd_nth k g (s_conns s) ->
+  (forall c, nth_error (s_conns s) k = Some c ->
+     uses_un (g c) = uses_un c /\ (forall w h, uses_sc w h (g c) = uses_sc w h c) /\
+     (sel_ok (s_scaled s) c -> sel_ok (s_scaled s) (g c))) ->
+  rc_inv s'.
+Proof.
+  intros s k g s' (R1 & R2 & R3 & R4) E1 E2 E3 H. unfold rc_inv. rewrite E1, E2, E3. repeat split; auto.
+  - rewrite cnt_upd_eq; auto. intros c Hc. apply (H c Hc).
+  - intros w h r Hr. rewrite cnt_upd_eq; auto. intros c Hc. apply (H c Hc).
+  - apply Forall_upd; auto. intros x Hx Px. apply (H x Hx). exact Px.
+Qed.
+
+Lemma uses_on_proto : forall f c, noscale f ->
+  uses_un (on_proto f c) = uses_un c /\ (forall w h, uses_sc w h (on_proto f c) = uses_sc w h c) /\
+  (forall ch, sel_ok ch c -> sel_ok ch (on_proto f c)).
+Proof.
+  intros f c Hf. unfold on_proto. destruct (l_freed (c_life c)) eqn:E; [auto|].
+  destruct (Hf (c_proto c)) as (A & B & C).
+  unfold uses_un, uses_sc, sel_ok, islive; simpl. rewrite A, B, C. auto.
+Qed.
+
+Lemma rc_updp : forall k f s, noscale f -> rc_inv s -> rc_inv (updp k f s).
+Proof.
+  intros k f s Hf I. eapply rc_same with (k := k) (g := on_proto f); [exact I | reflexivity | reflexivity | reflexivity | ].
+  intros c _. destruct (uses_on_proto f c Hf) as (A & B & C). repeat split; auto.
+Qed.
+
+Lemma rc_close : forall k s, rc_inv s -> rc_inv (close_client k s).
+Proof.
+  intros k s I. unfold close_client. destruct (s_hung s); auto. destruct (live s k) as [c|] eqn:Hl; auto.
+  destruct (l_open (c_life c)); auto. destruct (live_some _ _ _ Hl) as [Hg Hnf].
+  eapply rc_same with (k := k) (g := fun _ => _); [exact I | reflexivity | reflexivity | reflexivity | ].
+  intros c0 Hc0. unfold get in Hg. rewrite Hg in Hc0. inversion Hc0; subst c0.
+  unfold uses_un, uses_sc, sel_ok, islive; simpl. repeat split; auto.
+Qed.
+
+Lemma gone_shape : forall k s c, s_hung s = false -> live s k = Some c ->
+  p_outlock (c_proto c) || p_sendlock (c_proto c) = false ->
+  exists c', l_freed (c_life c') = true /\
+    s_conns (connection_gone k s) = upd_nth k (fun _ => c') (s_conns s) /\
+    s_ref (connection_gone k s) = s_ref (adj_ref (c_proto c) (-1) s) /\
+    s_scaled (connection_gone k s) = s_scaled (adj_ref (c_proto c) (-1) s).
+Proof.
+  intros k s c Hh Hl Hk. unfold connection_gone. rewrite Hh, Hl, Hk.
+  eexists. split; [|unfold adj_ref; destruct (p_scaled (c_proto c)); simpl; destruct (s_ptr s) as [j0|]; simpl;
+    try destruct (Nat.eqb j0 k); simpl; repeat split; reflexivity].
+  reflexivity.
+Qed.
+
+Lemma rc_gone : forall k s, rc_inv s -> rc_inv (connection_gone k s).
+Proof.
+  intros k s I. destruct (s_hung s) eqn:Hh. { unfold connection_gone. rewrite Hh. exact I. }
+  destruct (live s k) as [c|] eqn:Hl. 2:{ unfold connection_gone. rewrite Hh, Hl. exact I. }
+  destruct (p_outlock (c_proto c) || p_sendlock (c_proto c)) eqn:Hk.
+  { unfold connection_gone. rewrite Hh, Hl, Hk. exact (rc_updp k drop_ft s ltac:(solve_noscale) I). }
+  destruct (gone_shape k s c Hh Hl Hk) as (c' & Hf' & E3 & E1 & E2).
+  destruct (live_some _ _ _ Hl) as [Hg Hnf].
+  destruct (uses_freed c' Hf') as [F1 F2].
+  assert (Hsel : forall ch, sel_ok ch c').
+  { intros ch A. unfold islive in A. rewrite Hf' in A. discriminate. }
+  destruct (p_scaled (c_proto c)) eqn:Hs.
+  - destruct (uses_live_sc c Hnf Hs) as [U1 U2].
+    eapply rc_replace with (k := k) (c := c) (c' := c') (dun := 0%Z)
+       (dsc := fun w h => (if ((w =? p_sw (c_proto c)) && (h =? p_sh (c_proto c)))%Z then -1 else 0)%Z)
+       (ch' := adj_scaled (p_sw (c_proto c)) (p_sh (c_proto c)) (-1) (s_scaled s)); eauto.
+    + rewrite F1, U1. reflexivity.
+    + intros w h. rewrite F2, U2. destruct ((w =? p_sw (c_proto c)) && (h =? p_sh (c_proto c)))%Z; reflexivity.
+    + rewrite keys_adj. apply I.
+    + intros w h r' H. apply in_adj; auto. apply I.
+    + intros w h H. rewrite has_scaled_adj. auto.
+    + rewrite E1. unfold adj_ref. rewrite Hs. change (s_ref s = s_ref s + 0)%Z. lia.
+    + rewrite E2. unfold adj_ref. rewrite Hs. reflexivity.
+  - destruct (uses_live_un c Hnf Hs) as [U1 U2].
+    eapply rc_replace with (k := k) (c := c) (c' := c') (dun := (-1)%Z) (dsc := fun _ _ => 0%Z)
+       (ch' := s_scaled s); eauto.
+    + rewrite F1, U1. reflexivity.
+    + intros w h. rewrite F2, U2. reflexivity.
+    + apply I.
+    + intros w h r' H. exists r'. split; auto. lia.
+    + rewrite E1. unfold adj_ref. rewrite Hs. reflexivity.
+    + rewrite E2. unfold adj_ref. rewrite Hs. reflexivity.
+Qed.
+
+Lemma rc_add_entry : forall sw sh s, rc_inv s -> has_scaled sw sh (s_scaled s) = false ->
+  rc_inv (set_scaled ((sw, sh, 0%Z) :: s_scaled s) s).
+Proof.
+  intros sw sh s (R1 & R2 & R3 & R4) Hn. unfold rc_inv; simpl. repeat split; auto.
+  - intros w h r [H|H]; [|auto]. inversion H; subst. symmetry. apply cnt_zero. intros c Hc.
+    destruct (uses_sc w h c) eqn:U; auto. exfalso.
+    unfold uses_sc in U. apply andb_true_iff in U. destruct U as [U U3]. apply andb_true_iff in U. destruct U as [U1 U2].
+    apply andb_true_iff in U3. destruct U3 as [Ua Ub]. apply Z.eqb_eq in Ua. apply Z.eqb_eq in Ub.
+    pose proof (proj1 (Forall_forall _ _) R4 c Hc U1 U2) as Hs. rewrite <- Ua, <- Ub in Hs. congruence.
+  - unfold keys in *; simpl. constructor; auto. intro Hin. apply has_scaled_keys in Hin. congruence.
+  - eapply Forall_impl; [|exact R4]. intros c Hc A B. pose proof (Hc A B) as E. unfold has_scaled in *. simpl. rewrite E. apply orb_true_r.
+Qed.
+
+Lemma rc_move : forall k sw sh s0 c, rc_inv s0 -> live s0 k = Some c -> has_scaled sw sh (s_scaled s0) = true ->
+  rc_inv (updp k (pset_scale true sw sh)
+            (set_scaled (adj_scaled sw sh 1 (s_scaled (adj_ref (c_proto c) (-1) s0))) (adj_ref (c_proto c) (-1) s0))).
+Proof.
+  intros k sw sh s0 c I Hl F0. destruct (live_some _ _ _ Hl) as [Hg Hnf].
+  set (c' := on_proto (pset_scale true sw sh) c).
+  assert (Hc' : l_freed (c_life c') = false /\ p_scaled (c_proto c') = true /\ p_sw (c_proto c') = sw /\ p_sh (c_proto c') = sh)
+    by (unfold c', on_proto; rewrite Hnf; simpl; auto).
+  destruct Hc' as (Hf' & Hs' & Pw & Ph). destruct (uses_live_sc c' Hf' Hs') as [V1 V2]. rewrite Pw, Ph in V2.
+  destruct (p_scaled (c_proto c)) eqn:Hs.
+  - destruct (uses_live_sc c Hnf Hs) as [U1 U2].
+    eapply rc_replace with (k := k) (c := c) (c' := c') (dun := 0%Z)
+       (dsc := fun w h => ((if ((w =? sw) && (h =? sh))%Z then 1 else 0) +
+                           (if ((w =? p_sw (c_proto c)) && (h =? p_sh (c_proto c)))%Z then -1 else 0))%Z)
+       (ch' := adj_scaled sw sh 1 (adj_scaled (p_sw (c_proto c)) (p_sh (c_proto c)) (-1) (s_scaled s0))); eauto.
+    + rewrite V1, U1. reflexivity.
+    + intros w h. rewrite V2, U2.
+      destruct ((w =? sw) && (h =? sh))%Z; destruct ((w =? p_sw (c_proto c)) && (h =? p_sh (c_proto c)))%Z; reflexivity.
+    + rewrite !keys_adj. apply I.
+    + intros w h r' H. apply in_adj in H; [|rewrite keys_adj; apply I]. destruct H as [r1 [H1 ->]].
+      apply in_adj in H1; [|apply I]. destruct H1 as [r [H0 ->]]. exists r. split; auto. lia.
+    + intros w h H. rewrite !has_scaled_adj. auto.
+    + intros _ _. rewrite Pw, Ph, !has_scaled_adj. exact F0.
+    + unfold adj_ref. rewrite Hs. change (s_ref s0 = s_ref s0 + 0)%Z. lia.
+    + unfold adj_ref. rewrite Hs. reflexivity.
+    + unfold adj_ref. rewrite Hs. exact (upd_nth_ext _ _ _ _ _ Hg).
+  - destruct (uses_live_un c Hnf Hs) as [U1 U2].
+    eapply rc_replace with (k := k) (c := c) (c' := c') (dun := (-1)%Z)
+       (dsc := fun w h => (if ((w =? sw) && (h =? sh))%Z then 1 else 0)%Z)
+       (ch' := adj_scaled sw sh 1 (s_scaled s0)); eauto.
+    + rewrite V1, U1. reflexivity.
+    + intros w h. rewrite V2, U2. destruct ((w =? sw) && (h =? sh))%Z; reflexivity.
+    + rewrite keys_adj. apply I.
+    + intros w h r' H. apply in_adj; auto. apply I.
+    + intros w h H. rewrite has_scaled_adj. auto.
+    + intros _ _. rewrite Pw, Ph, has_scaled_adj. exact F0.
+    + unfold adj_ref. rewrite Hs. reflexivity.
+    + unfold adj_ref. rewrite Hs. reflexivity.
+    + unfold adj_ref. rewrite Hs. exact (upd_nth_ext _ _ _ _ _ Hg).
+Qed.
+
+Lemma rc_rescale : forall k sw sh s, rc_inv s -> rc_inv (scaling_setup k sw sh s).
+Proof.
+  intros k sw sh s I. unfold scaling_setup. destruct (live s k) as [c|] eqn:Hl; auto.
+  destruct (live_some _ _ _ Hl) as [Hg Hnf].
+  destruct ((sw =? g_w (s_cfg s)) && (sh =? g_h (s_cfg s)))%Z.
+  - set (c' := on_proto (pset_scale false 0 0) c).
+    assert (Hc' : l_freed (c_life c') = false /\ p_scaled (c_proto c') = false)
+      by (unfold c', on_proto; rewrite Hnf; simpl; auto).
+    destruct Hc' as [Hf' Hs']. destruct (uses_live_un c' Hf' Hs') as [V1 V2].
+    assert (Hsel : forall ch, sel_ok ch c') by (intros ch _ B; congruence).
+    destruct (p_scaled (c_proto c)) eqn:Hs.
+    + destruct (uses_live_sc c Hnf Hs) as [U1 U2].
+      eapply rc_replace with (k := k) (c := c) (c' := c') (dun := 1%Z)
+         (dsc := fun w h => (if ((w =? p_sw (c_proto c)) && (h =? p_sh (c_proto c)))%Z then -1 else 0)%Z)
+         (ch' := adj_scaled (p_sw (c_proto c)) (p_sh (c_proto c)) (-1) (s_scaled s)); eauto.
+      * rewrite V1, U1. reflexivity.
+      * intros w h. rewrite V2, U2. destruct ((w =? p_sw (c_proto c)) && (h =? p_sh (c_proto c)))%Z; reflexivity.
+      * rewrite keys_adj. apply I.
+      * intros w h r' H. apply in_adj; auto. apply I.
+      * intros w h H. rewrite has_scaled_adj. auto.
+      * unfold adj_ref. rewrite Hs. reflexivity.
+      * unfold adj_ref. rewrite Hs. reflexivity.
+      * unfold adj_ref. rewrite Hs. exact (upd_nth_ext _ _ _ _ _ Hg).
+    + destruct (uses_live_un c Hnf Hs) as [U1 U2].
+      eapply rc_replace with (k := k) (c := c) (c' := c') (dun := 0%Z) (dsc := fun _ _ => 0%Z)
+         (ch' := s_scaled s); eauto.
+      * rewrite V1, U1. reflexivity.
+      * intros w h. rewrite V2, U2. reflexivity.
+      * apply I.
+      * intros w h r' H. exists r'. split; auto. lia.
+      * unfold adj_ref. rewrite Hs. change (s_ref s + -1 + 1 = s_ref s + 0)%Z. lia.
+      * unfold adj_ref. rewrite Hs. reflexivity.
+      * unfold adj_ref. rewrite Hs. exact (upd_nth_ext _ _ _ _ _ Hg).
+  - destruct (has_scaled sw sh (s_scaled s)) eqn:F.
+    + apply (rc_move k sw sh s c); auto.
+    + destruct ((sw =? 0) || (sh =? 0))%Z; [exact I|].
+      apply (rc_move k sw sh (set_scaled ((sw, sh, 0%Z) :: s_scaled s) s) c).
+      * apply rc_add_entry; auto.
+      * exact Hl.
+      * unfold has_scaled. simpl. rewrite !Z.eqb_refl. reflexivity.
+Qed.
+
+Lemma bstep_rc : forall k s s', bstep k s s' -> rc_inv s -> rc_inv s'.
+Proof.
+  intros k s s' H I. destruct H; try exact I.
+  - apply rc_updp; auto.
+  - apply rc_close; auto.
+  - apply rc_gone; auto.
+  - apply rc_rescale; auto.
+Qed.
+
+Lemma gstep_rc : forall s s', gstep s s' -> rc_inv s -> rc_inv s'.
+Proof.
+  intros s s' H I. destruct H; try exact I.
+  - eapply bstep_rc; eauto.
+  - (* a connection is accepted: one more user of the unscaled screen *)
+    destruct I as (R1 & R2 & R3 & R4). unfold rc_inv, add_conn. simpl. repeat split; auto.
+    + rewrite cnt_app. rewrite R1. reflexivity.
+    + intros w h r Hr. rewrite cnt_app. rewrite (R2 w h r Hr). unfold uses_sc. simpl. lia.
+    + apply Forall_app. split; auto. constructor; auto. intros _ B. simpl in B. discriminate.
+  - (* newClientHook *)
+    eapply rc_same with (k := k); [exact I | reflexivity | reflexivity | reflexivity | ].
+    intros c0 _. unfold uses_un, uses_sc, sel_ok, islive; simpl. repeat split; auto.
+Qed.
+
+Lemma reach_rc : forall s s', reach s s' -> rc_inv s -> rc_inv s'.
+Proof. intros s s' H. induction H; auto. intros. eapply gstep_rc; eauto. Qed.
+
+Theorem refcounts_match_users : forall cfg ops, rc_inv (run cfg ops).
+Proof.
+  intros. apply (reach_rc (init cfg)).
+  - unfold run. apply reach_run_from. apply r_refl.
+  - unfold rc_inv, init; simpl. repeat split; auto; try constructor. intros w h r [].
+Qed.
+
+Theorem refcounts_match_users_stmt : forall cfg ops,
+  let s := run cfg ops in
+  s_ref s = cnt uses_un (s_conns s) /\
+  (forall w h r, In (w, h, r) (s_scaled s) -> r = cnt (uses_sc w h) (s_conns s)) /\
+  NoDup (keys (s_scaled s)) /\
+  (forall k c, live s k = Some c -> p_scaled (c_proto c) = true ->
+     has_scaled (p_sw (c_proto c)) (p_sh (c_proto c)) (s_scaled s) = true).
+Proof.
+  intros cfg ops s. destruct (refcounts_match_users cfg ops) as (R1 & R2 & R3 & R4). repeat split; auto.
+  intros k c Hl Hs. destruct (live_some _ _ _ Hl) as [Hg Hnf].
+  apply (Forall_nth _ _ _ _ _ R4 Hg); auto. unfold islive. rewrite Hnf. reflexivity.
+Qed.
+
+Lemma all_freed_counts_zero : forall s, rc_inv s ->
+  (forall k c, get s k = Some c -> l_freed (c_life c) = true) ->
+  s_ref s = 0%Z /\ forall w h r, In (w, h, r) (s_scaled s) -> r = 0%Z.
+Proof.
+  intros s (R1 & R2 & _ & _) Hall.
+  assert (Z0 : forall P, (forall c, l_freed (c_life c) = true -> P c = false) -> cnt P (s_conns s) = 0%Z).
+  { intros P HP. apply cnt_zero. intros c Hin. apply In_nth_error in Hin. destruct Hin as [k Hk].
+    apply HP. apply (Hall k c Hk). }
+  split.
+  - rewrite R1. apply Z0. intros c Hf. apply (uses_freed c Hf).
+  - intros w h r Hr. rewrite (R2 w h r Hr). apply Z0. intros c Hf. apply (uses_freed c Hf).
+Qed.
+
+Theorem counts_zero_after_shutdown : forall cfg ops,
+  let s := run cfg (ops ++ [OShutdown]) in
+  s_cleaned s = false ->
+  s_ref s = 0%Z /\ forall w h r, In (w, h, r) (s_scaled s) -> r = 0%Z.
+Proof.
+  intros cfg ops s Hc. apply all_freed_counts_zero; [apply refcounts_match_users|].
+  intros k c Hg. apply (torn_down_after_shutdown cfg ops Hc k c Hg).
+Qed.
+
+Theorem counts_zero_after_cleanup : forall cfg ops,
+  s_cleaned (run cfg ops) = false ->
+  let s := run cfg (ops ++ [OCleanup]) in
+  s_ref s = 0%Z /\ forall w h r, In (w, h, r) (s_scaled s) -> r = 0%Z.
+Proof.
+  intros cfg ops Hc s. apply all_freed_counts_zero; [apply refcounts_match_users|].
+  intros k c Hg. apply (torn_down_after_cleanup cfg ops Hc k c Hg).
 Qed.
 
 Theorem teardown_frame : forall k j s, j <> k ->
